@@ -64,12 +64,13 @@ func (v *vView) chansAsIface() map[string]interface{} {
 var (
 	vNicks    = []string{"alice", "bob", "carol", "dave", "b[ob]", "eve", "fr\\ed", "FR|ED"}
 	vBadNicks = []string{"1bad", "", "a b", "#chan", "toolongnickname-toolongnickname-x", "nickserv", "FooServ"}
-	vChans    = []string{"#a", "#b", "#c", "#a,#b", "#Chan"}
+	vChans    = []string{"#a", "#b", "#c", "#a,#b", "#Chan", "##a", "#@a"}
 	vBadChans = []string{"&x", "#", "a", "#a:b", ""}
 	vKeys     = []string{"k1", "k2"}
 	vTexts    = []string{"hi", "hello world", ":colon first", ""}
-	vAddrs    = []string{"a1", "a2", "a3", "2001:db8::1", "2001:DB8::1"}
-	vPseudo   = []string{"NickServ", "ChanServ", "Bot", "bot", "B[ot]", "OperServ", "b{ot}", "b[ot]"}
+	// the last two: what a trusted bridge forwards need not be an address (handlePostMessage keeps it as it is)
+	vAddrs  = []string{"a1", "a2", "a3", "2001:db8::1", "2001:DB8::1", "a1", "a2", "[2001:db8::1", "(unknown"}
+	vPseudo = []string{"NickServ", "ChanServ", "Bot", "bot", "B[ot]", "OperServ", "b{ot}", "b[ot]", "Global.Notice", "4ever"}
 )
 
 // variant returns another spelling of the same name under IRC case mapping.
@@ -105,7 +106,17 @@ func vCaptcha(r *rand.Rand, ts int64, arg string) (string, bool) {
 	case 0, 1: // valid and fresh
 		age := int64(r.Intn(290))
 		return vToken(fmt.Sprintf("okay:join:%d:%s", (ts-age)*1000000000, arg)), true
-	case 2: // too old
+	case 2: // too old: by minutes, by years, by more than a 64-bit count of nanoseconds can express
+		switch r.Intn(5) {
+		case 0:
+			return vToken(fmt.Sprintf("okay:join:%d:%s", (ts-315360000)*1000000000, arg)), false
+		case 1:
+			return vToken(fmt.Sprintf("okay:join:-9000000000000000000:%s", arg)), false
+		case 2:
+			return vToken(fmt.Sprintf("okay:join:-9223372036854775808:%s", arg)), false
+		case 3:
+			return vToken(fmt.Sprintf("okay:join:-99999999999999999999:%s", arg)), false
+		}
 		return vToken(fmt.Sprintf("okay:join:%d:%s", (ts-301-int64(r.Intn(1000)))*1000000000, arg)), false
 	case 3: // replay of the challenge itself (purpose lacks okay:)
 		return vToken(fmt.Sprintf("join:%d:%s", ts*1000000000, arg)), false
@@ -462,7 +473,13 @@ func (g *vGen) next(step int, st map[string]interface{}) *vEntry {
 			if r.Intn(3) == 0 {
 				e.Data = fmt.Sprintf(":%s SVSHOLD %s", pfx, pick(r, vNicks))
 			} else {
-				e.Data = fmt.Sprintf(":%s SVSHOLD %s %s :%s", pfx, pick(r, vNicks), pick(r, []string{"0", "5", "100", "x"}), "held")
+				durs := []string{"0", "5", "100", "x"}
+				if g.realtime {
+					// entries are stamped by the real clock: whether a hold of 0 or 5 s has run out when the
+					// next NICK arrives is a matter of nanoseconds the model (whole seconds) cannot follow
+					durs = []string{"100", "3600", "x"}
+				}
+				e.Data = fmt.Sprintf(":%s SVSHOLD %s %s :%s", pfx, pick(r, vNicks), pick(r, durs), "held")
 			}
 		}
 		// the models's SVSNICK scope: target is a client session
@@ -550,6 +567,10 @@ func (g *vGen) next(step int, st map[string]interface{}) *vEntry {
 			masks := []string{"*!*@a1", "*!*@a2", "bob!*@*", "*!u1@*", "*alice*", "*!*@robust/0x2", "*!*@robust/0x3",
 				"BOB!*@*", "*!*@A1", "*!*@h[x]", "*!*@H{X}", "b[ob]!*@*", "B{OB}!*@*"} // incl. masks equal under IRC case mapping
 			m := pick(r, masks)
+			if len(clients) > 0 && r.Intn(3) == 0 {
+				// a session that exists, by its host (the server bans the session's address along with it)
+				m = fmt.Sprintf("*!*@robust/0x%x", clients[r.Intn(len(clients))]["id"].(int64))
+			}
 			// like nicknames and channels: prefer an existing mask in another spelling
 			if cc, ok := v.chans[strings.ToLower(c)]; ok {
 				if bans, ok := cc["bans"].([]interface{}); ok && len(bans) > 0 && r.Intn(2) == 0 {
@@ -684,6 +705,27 @@ func (g *vGen) volume() []*vEntry {
 	for _, k := range []int{9, 1, n} {
 		line(b, fmt.Sprintf("JOIN #v%02d", k))
 	}
+	// names that differ only in their run of leading sigils, or in where a sigil stands: whatever lists
+	// channels in an order has to order these as well
+	line(a, "JOIN ##v01,#@v01,#v01#,###v01")
+	line(b, "JOIN ##v01,#@v01")
+	line(b, "WHOIS alice")
+	line(a, "WHOIS bob")
+	line(a, "LIST")
+	if r.Intn(2) == 0 {
+		// the operators lower the channel limit below the number of channels that exist: nothing is
+		// destroyed, and no new channel comes into being until enough old ones are gone
+		g.rev++
+		low := vCfgEntry(r, 0, 0, g.rev)
+		for !low.CfgOk || low.Cfg["maxs"].(int64) != 0 || low.Cfg["maxc"].(int64) != 2 {
+			low = vCfgEntry(r, 0, 0, g.rev)
+		}
+		es = append(es, low)
+		line(a, "JOIN #new1")
+		line(b, "JOIN #new2,#new3,#v02")
+		line(a, "PART #v35,#v36")
+		line(a, "JOIN #new4,#new5")
+	}
 	g.minlen = len(es) + 8
 	return es
 }
@@ -729,6 +771,144 @@ func (g *vGen) bantable() []*vEntry {
 	return es
 }
 
+// respell: a channel operator takes other spellings of its OWN nickname (letter case, the bracket pairs of
+// the IRC case mapping, both) and goes on using its channels under each of them
+func (g *vGen) respell() []*vEntry {
+	r := g.r
+	var es []*vEntry
+	g.rev++
+	cfg := vCfgEntry(r, 0, 0, g.rev)
+	for !cfg.CfgOk || cfg.Cfg["maxs"].(int64) != 0 || cfg.Cfg["maxc"].(int64) != 0 {
+		cfg = vCfgEntry(r, 0, 0, g.rev)
+	}
+	es = append(es, cfg)
+	base := g.id
+	line := func(sess int64, data string) {
+		es = append(es, &vEntry{T: "line", Sess: sess, Data: data, Sup: true, Conf: true})
+	}
+	for k := 0; k < 2; k++ {
+		es = append(es, &vEntry{T: "create", Data: fmt.Sprintf("auth%04d-secret", base+int64(k)+1), Sup: true, Conf: true})
+	}
+	a, b := base+1, base+2
+	spell := [][]string{
+		{"b[ob]", "b{ob}", "B[OB}", "b[ob]"},
+		{"fr\\ed", "fr|ed", "FR\\ED", "Fr|ed"},
+		{"x{y}|z", "x[y]\\z", "X{Y]|Z", "x{y}|z"},
+	}[r.Intn(3)]
+	line(a, "NICK "+spell[0])
+	line(a, "USER u1 0 * :Real 1")
+	line(b, "NICK alice")
+	line(b, "USER u2 0 * :Real 2")
+	line(a, "JOIN #a,#b")
+	line(b, "JOIN #a")
+	for k, n := range spell[1:] {
+		line(a, "NICK "+n)
+		switch (k + r.Intn(3)) % 3 {
+		case 0:
+			line(a, fmt.Sprintf("TOPIC #a :topic %d", k))
+			line(a, "MODE #b +i")
+		case 1:
+			line(a, "PART #b")
+			line(a, "JOIN #b")
+			line(a, "MODE #a +o alice")
+		case 2:
+			line(b, "PRIVMSG "+n+" :still there?")
+			line(a, "KICK #a alice :out")
+			line(b, "JOIN #a")
+		}
+		line(b, "WHOIS "+spell[0])
+		line(a, "NAMES #a")
+	}
+	g.minlen = len(es) + 6
+	return es
+}
+
+// prelogin: the services put a session that has a nickname but has not logged in yet into channels; the
+// session renames itself (twice) before it completes the login, and the channels are used afterwards
+func (g *vGen) prelogin() []*vEntry {
+	r := g.r
+	var es []*vEntry
+	g.rev++
+	cfg := vCfgEntry(r, 0, 0, g.rev)
+	for !cfg.CfgOk || cfg.Cfg["maxs"].(int64) != 0 || cfg.Cfg["maxc"].(int64) != 0 || len(cfg.Cfg["svc"].([]interface{})) == 0 {
+		cfg = vCfgEntry(r, 0, 0, g.rev)
+	}
+	es = append(es, cfg)
+	base := g.id
+	line := func(sess int64, data string) {
+		es = append(es, &vEntry{T: "line", Sess: sess, Data: data, Sup: true, Conf: true})
+	}
+	for k := 0; k < 3; k++ {
+		es = append(es, &vEntry{T: "create", Data: fmt.Sprintf("auth%04d-secret", base+int64(k)+1), Sup: true, Conf: true})
+	}
+	a, c, l := base+1, base+2, base+3
+	line(a, "NICK alice")
+	line(a, "USER u1 0 * :Real 1")
+	line(a, "JOIN #a")
+	line(l, "PASS services=spw")
+	line(l, "SERVER services.example 1 :Services")
+	line(l, "NICK ChanServ 1 1 cs services.example services.example 0 +o :ChanServ service")
+	line(c, "NICK carol")
+	line(l, ":ChanServ SVSJOIN carol #a")
+	if r.Intn(2) == 0 {
+		line(l, ":ChanServ SVSJOIN carol #b")
+	}
+	line(c, "NICK dave")
+	line(a, "NAMES #a")
+	line(a, "PRIVMSG #a :anyone?")
+	if r.Intn(2) == 0 {
+		line(c, "NICK "+pick(r, []string{"DAVE", "eve"}))
+	}
+	line(c, "USER u2 0 * :Real 2")
+	line(c, "PRIVMSG #a :here")
+	line(a, "WHOIS "+pick(r, []string{"carol", "dave"}))
+	line(a, "KICK #a dave :out")
+	line(c, "PART #a")
+	g.minlen = len(es) + 6
+	return es
+}
+
+// oddaddr: a session whose stored remote address is not an address (a trusted bridge forwards what it was
+// given) is named in ban masks: the address is pasted into the second pattern of the ban, which then does
+// not compile - with an empty ban list, with the mask on the list, when setting and when removing
+func (g *vGen) oddaddr() []*vEntry {
+	r := g.r
+	var es []*vEntry
+	g.rev++
+	cfg := vCfgEntry(r, 0, 0, g.rev)
+	for !cfg.CfgOk || cfg.Cfg["maxs"].(int64) != 0 || cfg.Cfg["maxc"].(int64) != 0 {
+		cfg = vCfgEntry(r, 0, 0, g.rev)
+	}
+	es = append(es, cfg)
+	base := g.id
+	line := func(sess int64, data, addr string) {
+		es = append(es, &vEntry{T: "line", Sess: sess, Data: data, Sup: true, Conf: true, Addr: addr})
+	}
+	for k := 0; k < 2; k++ {
+		es = append(es, &vEntry{T: "create", Data: fmt.Sprintf("auth%04d-secret", base+int64(k)+1), Sup: true, Conf: true})
+	}
+	a, b := base+1, base+2
+	odd := pick(r, []string{"[2001:db8::1", "(unknown"})
+	line(a, "NICK alice", "a1")
+	line(a, "USER u1 0 * :Real 1", "")
+	line(b, "NICK bob", odd)
+	line(b, "USER u2 0 * :Real 2", "")
+	line(a, "JOIN #a", "")
+	mask := fmt.Sprintf("*!*@robust/0x%x", b)
+	if r.Intn(2) == 0 {
+		line(a, "MODE #a -b "+mask, "") // nothing on the list
+	}
+	line(a, "MODE #a +b "+mask, "")
+	line(a, "MODE #a +b", "")
+	line(a, "MODE #a -b "+mask, "")
+	line(a, "MODE #a -b "+mask, "")
+	line(a, "MODE #a +b", "")
+	line(b, "JOIN #a", "")
+	line(a, "MODE #a +b-b "+mask+" "+mask, "")
+	g.minlen = len(es) + 6
+	return es
+}
+
 func (g *vGen) warmup() []*vEntry {
 	r := g.r
 	switch r.Intn(28) {
@@ -736,6 +916,12 @@ func (g *vGen) warmup() []*vEntry {
 		return g.volume()
 	case 2, 3:
 		return g.bantable()
+	case 4, 5:
+		return g.respell()
+	case 6, 7:
+		return g.prelogin()
+	case 8, 9:
+		return g.oddaddr()
 	}
 	var es []*vEntry
 	g.rev++
